@@ -6,6 +6,7 @@ import (
 
 	"github.com/prometheus/prometheus/promql/parser"
 
+	"verifharness/contract"
 	"verifharness/core"
 	"verifharness/memstore"
 	"verifharness/oracle"
@@ -69,7 +70,12 @@ func init() {
 			sess := v.st.Session()
 			sess.Shuffle = v.shuffle
 			sess.Delay = v.delay
+			if v.delay != 0 {
+				// also perturb the schedule at operator boundaries (verif hook)
+				contract.InstallPerturbation(v.delay)
+			}
 			r, err := Run(ctx, NewEngine(c.Lookback, c.Opt, false), sess, qo, c.Query, c.Start, c.End, c.Step)
+			contract.Uninstall()
 			evals++
 			if err != nil {
 				if i == 0 {
